@@ -20,7 +20,8 @@ RULE = ('Hypothesis cases: a lock kind with its parameters (single-sig, single-s
         'reduced to the typed stack it leaves (it is a pure-push script) and a reference acceptance predicate per lock '
         'kind, written from the builder documentation on top of the RFC 8032 reference, decides the expected verdict; a '
         'recording contract shows whether a committed / surrogate script started. non-trivial = any perturbed or cross '
-        'case, or a positive case with flag != 0 or >= 2 sigfields; distinct by case parameters.')
+        'case, or a positive case with flag != 0 or >= 2 sigfields; distinct by case parameters.'
+        ' Every accepted witness is replayed in the same process over other sigfield contents (the reference decides); flags over every subset of every allowed byte; sigfield dicts filled in a drawn order.')
 ASSUMPTIONS = ['witness builders emit pure pushes (asserted per case; otherwise the case is skipped and counted)',
                'vt/ed25519_ref.py decides signature validity; hash commitments are collision-free except where the '
                'predicate evaluates the truncated hash itself (script-hash sizes down to 1 byte)']
